@@ -223,6 +223,31 @@ def version_grid(chk, sess):
                     ex2 = [e for e in r2["out"] if e.startswith("create")]
                     if ex2:
                         chk.violation("version-reject-destroyed", "a rejected attach (schema %d vs %d) destroyed the stored results" % (a, b), dict(scenario=L, then=L2), found_input=True)
+    # the LIBRARY's own schema version (info.version) as written by a newer or an older llbuild: never interpreted either
+    for delta in (+1, +1000, -1):
+        for recreate in (1, 0):
+            L = ["db 1"] + rules + ["build 1"]
+            r = sess.run(L, "libver")
+            dbp = os.path.join(r["wd"], "build.db")
+            try:
+                con = sqlite3.connect(dbp, timeout=2, isolation_level=None)
+                con.execute("UPDATE info SET version = version + %d" % delta)
+                con.close()
+            except sqlite3.Error as e:
+                chk.notes["libver_tamper_error"] = repr(e)
+                continue
+            L2 = ["db 2", "recreate %d" % recreate] + rules + ["build 1"]
+            r2 = sess.run(L2, "libver", keepdb=True)
+            n += 1
+            execs = [e for e in r2["out"] if e.startswith("create")]
+            att = [l for l in r2["out"] if l.startswith("attach-error")]
+            rp = dict(scenario=L, tamper="UPDATE info SET version = version + %d" % delta, then=L2, implementation=r2["out"][-30:])
+            if recreate and (len(execs) != 2 or att):
+                chk.violation("library-version-mismatch-interpreted", "a database stamped with library schema version %+d relative to this llbuild, opened with recreate: expected an empty database "
+                              "(both rules re-run), got executions %s %s" % (delta, execs, att), rp, found_input=True)
+            if not recreate and not att:
+                chk.violation("library-version-mismatch-not-rejected", "a database stamped with library schema version %+d relative to this llbuild, opened without recreate: attach must fail" % delta,
+                              rp, found_input=True)
     chk.count(None, n=n)
     return n
 
